@@ -15,7 +15,7 @@ from sim.families.e5_capacity import ROOT, repo_dir, worker_env
 from sim.kernel import Choices, sha
 
 WORKER = os.path.join(ROOT, "sim", "modelworker.py")
-TIMEOUT = 900
+TIMEOUT = 1800
 
 QUEENS = {1: 1, 2: 0, 3: 0, 4: 2, 5: 10, 6: 4, 7: 40, 8: 92, 9: 352, 10: 724}
 LATIN = {1: 1, 2: 2, 3: 12, 4: 576}
